@@ -174,8 +174,10 @@ def run_recompute(ex, U, HU):
     # stats before the call are arbitrary: drop the stats clauses by re-randomising the stats fields
     a, b = z3.Int("junk_unique"), z3.Int("junk_total")
     st.pc += [a >= 0, a <= U64, b >= 0, b <= U64]
-    w.value.fields[3].fields[0].fields[0] = VInt(a, "u64")
-    w.value.fields[3].fields[0].fields[1] = VInt(b, "u64")
+    from structs import fget, fset
+    cas_stats = fget(ex, fget(ex, w.value, "IndexState", "stats"), "DbStats", "cas")
+    fset(ex, cas_stats, "CasStats", "unique_blobs", VInt(a, "u64"))
+    fset(ex, cas_stats, "CasStats", "total_bytes", VInt(b, "u64"))
     stref = VRef(st.alloc(w.value))
     sz = z3.Int("file_size")
     st.pc += [sz >= 0, sz <= U64]
@@ -191,7 +193,7 @@ def run_recompute(ex, U, HU):
         out["C12 recompute: unique_blobs equals incremental value"] = post["unique"] == pre["unique"]
         out["C12 recompute: total_bytes equals incremental value"] = post["total"] == pre["total"]
         v = f.load(stref)
-        out["index size recorded"] = v.fields[3].fields[1].fields[0].t == sz
+        out["index size recorded"] = fget(ex, fget(ex, fget(ex, v, "IndexState", "stats"), "DbStats", "index"), "IndexStats", "serialized_size_bytes").t == sz
         return out
     ob = check_posts(ex, finals, posts, pre_terms_of(w, dict(op="recompute")), f"recompute_stats U={U} HU={HU}", ["C12", "C02"])
     ob.kind = ("recompute",)
@@ -211,9 +213,10 @@ def run_load_refcounts(ex, U, HU):
     empty_k = new_map("btree", w.kmap.vshape)
     empty_r = new_map("hash", ("int", "u32"))
     empty_r.ksort = "H"
-    tgt = VStruct("IndexState", [empty_k, empty_r, VEnum("Option", 0, {0: []}),
-                                 VStruct("DbStats", [VStruct("CasStats", [VInt(0, "u64"), VInt(0, "u64")]),
-                                                     VStruct("IndexStats", [VInt(0, "u64")])])])
+    from structs import mk
+    tgt = mk(ex, st, "IndexState", key_to_hash=empty_k, hash_to_ref_count=empty_r, last_persisted_version=VEnum("Option", 0, {0: []}),
+             stats=mk(ex, st, "DbStats", cas=mk(ex, st, "CasStats", unique_blobs=VInt(0, "u64"), total_bytes=VInt(0, "u64")),
+                      index=mk(ex, st, "IndexStats", serialized_size_bytes=VInt(0, "u64"))))
     tref = VRef(st.alloc(tgt))
     inc = find_fn(ex, "::increment_ref")
     states = [st]
@@ -229,7 +232,8 @@ def run_load_refcounts(ex, U, HU):
                 s2.pc.append(cond)
                 if present:
                     t = s2.load(tref)
-                    km = t.fields[0]
+                    from structs import fget as _fg
+                    km = _fg(ex, t, "IndexState", "key_to_hash")
                     km.present = z3.Store(km.present, w.keys[i], z3.BoolVal(True))
                     km.cols["blob_hash"] = z3.Store(km.cols["blob_hash"], w.keys[i], w.hk[i])
                     km.cols["blob_size"] = z3.Store(km.cols["blob_size"], w.keys[i], w.sk[i])
